@@ -340,6 +340,17 @@ fn parse_brief(s: &str) -> Vec<Vec<u64>> {
         .collect()
 }
 
+fn save_request(req: &str) -> String {
+    use std::hash::{Hash, Hasher};
+    let dir = std::env::var("VERIF_REQ_DIR").unwrap_or_else(|_| "/verif/replays/requests".to_string());
+    let _ = std::fs::create_dir_all(&dir);
+    let mut h = std::collections::hash_map::DefaultHasher::new();
+    req.hash(&mut h);
+    let path = format!("{dir}/{:016x}.req", h.finish());
+    let _ = std::fs::write(&path, format!("{req}\n"));
+    path
+}
+
 /// Validate the recorded internal transitions against the model's step relation. Returns the
 /// model's level layout after the last event (to chain with the next batch of events).
 pub fn validate_events(drv: &mut crate::drv::Drv, events: &[Event], obs: &mut Vec<Obs>, stats: &mut Stats, at: usize, chain: &mut Option<Vec<Vec<u64>>>) {
@@ -352,16 +363,19 @@ pub fn validate_events(drv: &mut crate::drv::Drv, events: &[Event], obs: &mut Ve
                 _ => {}
             }
         }
+        let mut request = String::new();
         let (levels_before, answer, kind): (&Vec<Vec<raindb::verif::FileDump>>, String, &str) = match ev {
             Event::Flush { file, level, size, levels_before, entries } => {
                 if *size == 0 {
                     continue;
                 }
-                let a = drv.ask(&format!("lsm.flush 0 {} {} {} {}", levels_tok(levels_before, &BTreeMap::new()), file, level, ents_tok(entries)));
+                request = format!("lsm.flush 0 {} {} {} {}", levels_tok(levels_before, &BTreeMap::new()), file, level, ents_tok(entries));
+                let a = drv.ask(&request);
                 (levels_before, a, "flush")
             }
             Event::TrivialMove { file, level, levels_before } => {
-                let a = drv.ask(&format!("lsm.move {} {} {}", levels_tok(levels_before, &BTreeMap::new()), file, level));
+                request = format!("lsm.move {} {} {}", levels_tok(levels_before, &BTreeMap::new()), file, level);
+                let a = drv.ask(&request);
                 (levels_before, a, "trivial-move")
             }
             Event::Compaction { level, inputs0, inputs1, smallest_snapshot, last_sequence, levels_before, input_entries, output_entries, .. } => {
@@ -375,7 +389,7 @@ pub fn validate_events(drv: &mut crate::drv::Drv, events: &[Event], obs: &mut Ve
                 let kept: usize = output_entries.iter().map(|o| o.1.len()).sum();
                 let total: usize = input_entries.iter().map(|o| o.1.len()).sum();
                 stats.entries_dropped += (total - kept.min(total)) as u64;
-                let a = drv.ask(&format!(
+                request = format!(
                     "lsm.compact {} {} {} {} {} {} {}",
                     last_sequence,
                     levels_tok(levels_before, &emap),
@@ -384,7 +398,8 @@ pub fn validate_events(drv: &mut crate::drv::Drv, events: &[Event], obs: &mut Ve
                     nums(inputs1),
                     smallest_snapshot,
                     outs
-                ));
+                );
+                let a = drv.ask(&request);
                 (levels_before, a, "compaction")
             }
             _ => continue,
@@ -416,7 +431,10 @@ pub fn validate_events(drv: &mut crate::drv::Drv, events: &[Event], obs: &mut Ve
                 Event::TrivialMove { file, level, .. } => format!("table {file} from level {level} on {:?}", brief(levels_before)),
                 _ => String::new(),
             };
-            obs.push(Obs { sig: sig.into(), what: format!("the {kind} the database performed ({detail}) does not satisfy the model's validity predicate, under which alone contents and invariant are proved to be preserved: {answer}"), at });
+            // the transition depends on the background thread's timing: keep the exact request so the
+            // model side can be re-evaluated (`raindrv < file`) even if the history does not replay
+            let saved = save_request(&request);
+            obs.push(Obs { sig: sig.into(), what: format!("the {kind} the database performed ({detail}) does not satisfy the model's validity predicate, under which alone contents and invariant are proved to be preserved: {answer} [model request saved as {saved}]"), at });
         }
     }
 }
